@@ -5,7 +5,7 @@ import NmVerif.NDA
     include/nmtools/array/eval/simd/evaluator/ufunc.hpp
       eval_unary            (l.38-86)    packed loop on raw data(), tail through apply_at
       eval_binary SAME_SHAPE(l.404-419)  same structure with two operands
-      eval_reduction, out_size == 1 (l.199-230)  vertical accumulate from set1(0), horizontal fold, leftover
+      eval_reduction, out_size == 1              vertical accumulate from set1(identity), horizontal fold, leftover
   and of the default (scalar) evaluator of include/nmtools/array/eval.hpp they are compared with.
 
   Buffers are `List`s; a packed load/store that would leave its buffer is `none`
@@ -108,14 +108,15 @@ def scalarReduceAll (op : α → α → α) (a : NDA α) : Option α := do
   | [] => none
   | x :: xs => pure (xs.foldl op x)
 
-/-- `eval_reduction` when the output has one element.  `zero` is the literal `0` of `op.set1(0)`:
-    the vector accumulator starts from 0 *whatever the op* (kept as in the code). -/
-def simdReduceAll (lanes : Nat) (packOp : List α → List α → List α) (op : α → α → α) (zero : α)
+/-- `eval_reduction` when the output has one element.  `identity` is `view.op.identity()`: the vector
+    accumulator starts from `op.set1(identity)`.  (Ops without `identity()` never get here: the evaluator
+    hands them to the scalar evaluator, see `simdReduceAxis` / `simdEvalReduceAll` in Simd/Eval.lean.) -/
+def simdReduceAll (lanes : Nat) (packOp : List α → List α → List α) (op : α → α → α) (identity : α)
     (a : NDA α) : Option α := do
   let n := a.data.length                                   -- nmtools::size(*input_array_ptr)
   let reg ← (packedStarts lanes n).foldlM (fun reg i => do
       let x ← loadu a.data i lanes
-      pure (packOp reg x)) (List.replicate lanes zero)       -- reg = op.eval(reg, operand)
+      pure (packOp reg x)) (List.replicate lanes identity)   -- reg = op.set1(identity); reg = op.eval(reg, operand)
   -- horizontal: result = tmp_res[0]; for i in 1..N: result = view.op(result, tmp_res[i])
   match reg with
   | [] => none
